@@ -42,7 +42,11 @@ func c10PendingReset(r *Run) {
 			}
 			// the read loop takes a message only when it is back in Read: with the writer parked, the second
 			// reset parks the read loop too (that is fine), so the third message may not be taken
-			if !within(hangTimeout/20, func() { sc.In <- e }) {
+			d := hangTimeout / 20
+			if j == 0 {
+				d = hangTimeout // the first one must be read; the later ones may find the read loop parked
+			}
+			if !within(d, func() { sc.In <- e }) {
 				break
 			}
 			fed++
